@@ -43,7 +43,7 @@ impl embassy_time_driver::Driver for VirtualDriver {
 embassy_time_driver::time_driver_impl!(static DRIVER: VirtualDriver = VirtualDriver);
 
 /// `Instant::now()` calls allowed per case before the watchdog aborts it.
-pub const NOW_BUDGET: u64 = 3_000_000;
+pub const NOW_BUDGET: u64 = 40_000_000;
 
 /// Microsecond ticks.
 pub const TICKS_PER_MS: u64 = 1_000;
